@@ -108,13 +108,34 @@ func (o Opt16) option() url.ParserOption {
 		if o.Sort == 1 {
 			return canonicalizer.WithSortQuery(canonicalizer.SortKeys)
 		}
-		return canonicalizer.WithSortQuery(canonicalizer.NoSort)
+		// other values of the option's integer type, written the way a caller outside the package can
+		v := canonicalizer.NoSort
+		for i := 0; i < o.Sort; i++ {
+			v++
+		}
+		for i := 0; i > o.Sort; i-- {
+			v--
+		}
+		return canonicalizer.WithSortQuery(v)
 	case "default-scheme":
 		return canonicalizer.WithDefaultScheme(o.Str)
 	case "repeated-decoding":
 		return canonicalizer.WithRepeatedPercentDecoding()
 	}
 	panic("unknown option " + o.Name)
+}
+
+// newProfile and newParser build from an option list the way a caller holding a list does: more than
+// once from the same slice. Every profile built from the list must behave the same; the checks get
+// the second one.
+func newProfile(opts []url.ParserOption) url.Parser {
+	_ = canonicalizer.New(opts...)
+	return canonicalizer.New(opts...)
+}
+
+func newParser(opts []url.ParserOption) url.Parser {
+	_ = url.NewParser(opts...)
+	return url.NewParser(opts...)
 }
 
 func buildOptions(opts []Opt16) []url.ParserOption {
@@ -399,12 +420,32 @@ func isDriveInput(in string, l byte) bool {
 	return len(rest) == 2 || strings.ContainsRune("/?#", rune(rest[2]))
 }
 
+var comboOption = map[string]bool{"remove-user-info": true, "remove-port": true, "remove-fragment": true, "sort-query": true, "default-scheme": true}
+
 // check16CanonCombo: any subset of remove-user-info / remove-port / remove-fragment / sort-query /
 // default-scheme together. Expected: the default parser's result (with the default-scheme rule), the
 // real setters applied for the remove-* options, and for sort-query the sorted decoded list with
 // everything else untouched.
 func check16CanonCombo(c Case16, r *core.Rec) {
-	p := canonicalizer.New(buildOptions(c.Opts)...)
+	// parser options may be interleaved with the canonicalizer options; they stay in the list only
+	// if their trigger is absent from the input, so that by the conservative-extension clause they
+	// change nothing
+	var eff []Opt16
+	var d0 parsed
+	for _, o := range c.Opts {
+		if !comboOption[o.Name] {
+			if d0.u == nil && d0.err == nil {
+				d0 = parse16(DefaultParser, c)
+			}
+			if triggered(o, c, d0) {
+				continue
+			}
+			r.Class("combo:mixed-with-parser-options")
+		}
+		eff = append(eff, o)
+	}
+	c.Opts = eff
+	p := newProfile(buildOptions(c.Opts))
 	got := parse16(p, c)
 	if got.err == nil && got.u == nil {
 		r.Failf("%s: returned (nil, nil)", where16(c))
@@ -529,7 +570,7 @@ func hasOpt(opts []Opt16, name string) bool {
 }
 
 func check16Remove(c Case16, r *core.Rec) {
-	p := canonicalizer.New(buildOptions(c.Opts)...)
+	p := newProfile(buildOptions(c.Opts))
 	got := parse16(p, c)
 	d0 := parse16(DefaultParser, c)
 	if got.err == nil && got.u == nil {
@@ -593,7 +634,7 @@ func check16Remove(c Case16, r *core.Rec) {
 }
 
 func check16Sort(c Case16, r *core.Rec) {
-	p := canonicalizer.New(buildOptions(c.Opts)...)
+	p := newProfile(buildOptions(c.Opts))
 	got := parse16(p, c)
 	d0 := parse16(DefaultParser, c)
 	if got.err == nil && got.u == nil {
@@ -682,7 +723,7 @@ func check16DefaultScheme(c Case16, r *core.Rec) {
 			scheme = o.Str
 		}
 	}
-	p := canonicalizer.New(buildOptions(c.Opts)...)
+	p := newProfile(buildOptions(c.Opts))
 	x := string(c.Input)
 	if c.HasBase && c.Base != "" {
 		// with a base that the default parser accepts, the default scheme has nothing to repair in the
@@ -765,7 +806,7 @@ func check16Neutral(c Case16, r *core.Rec) {
 	if len(c.Opts) >= 2 && d0.ok() {
 		r.NT()
 	}
-	got := parse16(url.NewParser(opts...), c)
+	got := parse16(newParser(opts), c)
 	if d := sameOutcome(got, d0); d != "" {
 		r.Failf("%s: no option's trigger is present in the input, yet url.NewParser(options) differs from the default parser: %s", where16(c), d)
 		return
@@ -782,7 +823,7 @@ func check16Neutral(c Case16, r *core.Rec) {
 			}
 		}
 	}
-	got = parse16(canonicalizer.New(opts...), c)
+	got = parse16(newProfile(opts), c)
 	d0 = parse16(DefaultParser, c)
 	if d := sameOutcome(got, d0); d != "" {
 		r.Failf("%s: no option's trigger is present in the input, yet canonicalizer.New(options) differs from the default parser: %s", where16(c), d)
@@ -858,7 +899,7 @@ func check16EncodeSetEffect(c Case16, r *core.Rec) {
 	}
 	o := c.Opts[0]
 	ch := rune(c.Char)
-	if ch >= 0x80 || strings.ContainsRune("/\\?#%\t\n\r @:[]", ch) || ch < 0x20 || ch == 0x7f {
+	if ch >= 0x80 || strings.ContainsRune("/\\?#\t\n\r @:[]", ch) || ch < 0x20 || ch == 0x7f {
 		r.Vacuous() // delimiters and characters with a meaning of their own are not placed in components
 		return
 	}
@@ -1002,7 +1043,7 @@ func check16SpecialSchemeEffect(c Case16, r *core.Rec) {
 
 // ---- generators ------------------------------------------------------------------------------------------
 
-var c16SafeChars = []uint{'!', '$', '&', '\'', '(', ')', '*', '+', ',', ';', '=', '^', '_', '`', '{', '|', '}', '~', '"', '<', '>', '-', '.', 'a', 'Z', '0'}
+var c16SafeChars = []uint{'!', '$', '&', '\'', '(', ')', '*', '+', ',', ';', '=', '^', '_', '`', '{', '|', '}', '~', '"', '<', '>', '-', '.', 'a', 'Z', '0', '%'}
 var neutralOpts = []string{"report", "accept-invalid", "single-percent", "collapse", "skip-drive", "special-schemes", "lax-host", "skip-equals", "allow-path-nonbase", "path-set", "query-set", "special-query-set", "fragment-set", "special-fragment-set"}
 var encSetOpts = []string{"path-set", "query-set", "special-query-set", "fragment-set", "special-fragment-set"}
 
@@ -1093,6 +1134,16 @@ func Gen16(t *rapid.T) Case16 {
 		}
 		if !c.HasBase && rapid.IntRange(0, 1).Draw(t, "withdefscheme") == 1 {
 			c.Opts = append(c.Opts, Opt16{Name: "default-scheme", Str: gen.Pick(t, "defscheme", []string{"http", "https", "foo", "ws"})})
+		}
+		// the options in any order, and parser options in between (option lists are assembled from
+		// shared pieces; the result must not depend on how the list is laid out)
+		if rapid.IntRange(0, 1).Draw(t, "mixed") == 1 {
+			for i, k := 0, rapid.IntRange(1, 2).Draw(t, "nmixed"); i < k; i++ {
+				c.Opts = append(c.Opts, Opt16{Name: gen.Pick(t, "mixedopt", []string{"accept-invalid", "skip-drive", "single-percent"})})
+			}
+		}
+		if len(c.Opts) > 1 && rapid.IntRange(0, 1).Draw(t, "shuffle") == 1 {
+			c.Opts = rapid.Permutation(c.Opts).Draw(t, "order")
 		}
 	case "sort":
 		genInput16(t, &c)
